@@ -70,6 +70,23 @@ func init() {
 	addRules("C19", "R-SIZEPAIR")
 	addRules("C20", "R-TXPAIR")
 	addRules("C21", "R-RAWREAD")
+	addRules("C01", "R-LOGGED", "R-FILEID-READ", "R-ORDER")
+	addRules("C02", "R-LOGGED", "R-BOUNDS-LIVE", "R-ORDER")
+	addRules("C03", "R-LIVE", "R-NEWEST", "R-FILEID-READ")
+	addRules("C04", "R-FILEID-READ")
+	addRules("C05", "R-RECOVER-ORDER")
+	addRules("C06", "R-RECOVER-ORDER")
+	addRules("C07", "R-RECOVER-ORDER")
+	addRules("C09", "R-SIZECHECK")
+	addRules("C19", "R-SIZECHECK", "R-FILEID-READ")
+	addRules("C10", "R-ADVANCE", "R-COMMITSET")
+	addRules("C12", "R-ADVANCE", "R-COMMITSET")
+	addRules("C11", "R-MERGE-ORDER")
+	reg("R-FILEID-READ", "Every read of DataFile.fileID is on DB.ActiveFile or on a DataFile whose fileID is assigned in the same function: NewDataFile leaves it 0, so any other handle claims to be segment 0.", ruleFileIDRead)
+	reg("R-BOUNDS-LIVE", "The functions that write BPTree.FirstKey/LastKey contain no tombstone or expiry test: a delete marker widens the key bounds (which become a sealed segment's lookup range in sparse mode) like any other record.", ruleBoundsLive)
+	reg("R-SIZECHECK", "Every comparison in the commit path that relates an Entry.Size() value to Options.SegmentSize compares them with no constant offset or scaling: an entry is accepted only if its encoded size fits into a segment.", ruleSizeCheck)
+	reg("R-ADVANCE", "In the commit path every advance of the active file's writeOff / ActualSize is dominated by the nil result of the record's WriteAt: a failed write leaves no hole behind which later commits land.", ruleAdvance)
+	reg("R-COMMITSET", "In the commit path a transaction id is put into DB.committedTxIds only under index == len(pendingWrites)-1 and after the nil result of the record's WriteAt.", ruleCommitSet)
 	addRules("C07", "R-ZSCORE")
 	reg("R-ZSCORE", "In ds/zset the ordering keys (score, key) of a skiplist node are stored only while the node is constructed; an in-place score store on a linked node must be dominated by strict comparisons placing the new score between both level-0 neighbours' scores (or by their absence).", ruleZScore)
 	addRules("C20", "R-ALLOC-BOUND")
